@@ -236,11 +236,14 @@ Section Populate.
   Variable dirichlet : Z -> option Q -> res (list Q).
   Variable cutoff mix : Q.
   Variable alpha : option Q.
-  Definition the_cfg : pyconfig := mkPyConfig cutoff alpha mix.
-  Notation gen_populate := (MctsGen.populate evaluate dirichlet the_cfg).
+  (* the fields populate reads; the two budget fields (read by analyze_tree only) are arbitrary *)
+  Variable budget_t : Q.
+  Variable budget_n : Z.
+  Definition cfg_gen : pyconfig := mkPyConfig cutoff alpha mix budget_t budget_n.
+  Notation gen_populate := (MctsGen.populate evaluate dirichlet cfg_gen).
 
   (* terminal test: v_zero = +1 / -1 / 0 for the side to move, nothing else changes, no evaluation *)
-  Theorem gen_populate_terminal p m v0 value sims raw probs o is_root :
+  Theorem gen_populate_terminal_g p m v0 value sims raw probs o is_root :
     terminal p = Some o ->
     gen_populate (py_of (Node p m v0 value sims raw probs None)) is_root =
     Ok (py_of (Node p m o value sims raw probs None)).
@@ -330,7 +333,7 @@ Section Populate.
 
   (* expansion: one evaluator answer, the size's table prefix, the noise mix at the searched root, the children in
      id order with prior >= cutoff that the rules accept, their priors renormalised *)
-  Theorem gen_populate_expand p m v0 value sims raw0 probs0 raw v is_root nz :
+  Theorem gen_populate_expand_g p m v0 value sims raw0 probs0 raw v is_root nz :
     terminal p = None -> evaluate p = Ok (raw, v) -> (0 < cutoff)%Q ->
     (is_root && is_some alpha = true ->
      dirichlet (zlen (firstn (length (table (size p))) raw)) alpha = Ok nz /\
@@ -344,7 +347,7 @@ Section Populate.
     intros Ht He Hc Hn noise pri acc. unfold MctsGen.populate. cbn [py_of pn_position]. unfold terminal in Ht.
     destruct (winner p) as [w [r|]]; [destruct w; discriminate|]. cbn [is_some]. rewrite He. cbn [bind].
     cbn [set_pn_v_zero set_pn_children pn_position]. rewrite ft_slice_table.
-    cbn [the_cfg cfg_root_noise_alpha cfg_root_noise_mix cfg_cutoff_prob].
+    cbn [cfg_gen cfg_root_noise_alpha cfg_root_noise_mix cfg_cutoff_prob].
     assert (Epri : (v_raw_probs <-
                       (if is_root && is_some alpha
                        then t3 <- dirichlet (zlen (firstn (length (table (size p))) raw)) alpha ;;
@@ -372,6 +375,13 @@ Section Populate.
     rewrite !map_map. reflexivity.
   Qed.
 End Populate.
+
+(* the statements with the budget fields at 0 (as folded into props/C08.v) *)
+Definition the_cfg (cutoff mix : Q) (alpha : option Q) : pyconfig := cfg_gen cutoff mix alpha 0 0.
+Definition gen_populate_terminal evaluate dirichlet cutoff mix alpha :=
+  gen_populate_terminal_g evaluate dirichlet cutoff mix alpha 0 0.
+Definition gen_populate_expand evaluate dirichlet cutoff mix alpha :=
+  gen_populate_expand_g evaluate dirichlet cutoff mix alpha 0 0.
 
 (* ================================================================== *)
 (* clauses of C08 / C09 transported to the generated functions         *)
@@ -403,6 +413,7 @@ Theorem gen_populate_children_legal evaluate dirichlet cutoff mix alpha p m v0 v
                                                Tak.move p mv = Some (pn_position c).
 Proof.
   intros Ht He Hc Hn.
+  unfold the_cfg.
   rewrite (gen_populate_expand evaluate dirichlet cutoff mix alpha p m v0 value sims raw0 probs0 raw v is_root nz Ht He Hc Hn).
   set (pri := priors mix p _ raw). set (acc := accepted cutoff p pri).
   eexists. exists (map py_of (map child_of acc)). split; [reflexivity|]. cbn [py_of pn_children pn_position pn_v_zero].
